@@ -73,11 +73,11 @@ Print Assumptions C15_hypotheses_satisfiable.
    C14's dev_ok and every sequence of TCP segments handled by the (repaired) supla_esp_recv_callback, the stored
    configuration has its Email/Username terminated in place (proved: C14_no_fault), and if WIFI_SSID, Server and
    MqttTopicPrefix are terminated in place as well, every page rendered from it is independent of the secrets.
-   PARTIAL LINK: termination of those three fields by the form handler is not yet a theorem (C14's frame lemma
-   covers the Email field only); it is enforced by the monitors of C14 ("X is no longer NUL-terminated inside its
+   (Superseded by C15_after_saved_form below, which needs no hypothesis on those three fields; kept as proved.)
+   Their termination is additionally enforced by the monitors of C14 ("X is no longer NUL-terminated inside its
    n bytes") and C15 (FORM events: flip test and literal test on the pages after the save) and by the byte
    comparison of the composed model (C14.Model.recv + page) with the real code.
-   Full statement (not yet proved):  dev_ok d -> wf_cfg (dcfg d) -> wf_cfg (stored_after sgf d segs). *)
+   *)
 Theorem C15_after_saved_form_partial : forall sg sgf d segs,
   C14.Proofs.dev_ok d ->
   let c1 := stored_after sgf d segs in
@@ -87,3 +87,17 @@ Theorem C15_after_saved_form_partial : forall sg sgf d segs,
      observable sg v (mkenv c1 nm mc stt dd) add = observable sg v (mkenv c2 nm mc stt dd) add).
 Proof. exact C15_after_saved_form_partial_thm. Qed.
 Print Assumptions C15_after_saved_form_partial.
+
+(* "... and after any saved form", full statement.  For every device state whose text fields are terminated in
+   place (C14's dev_ok: Email/Username, parser idle; dev_ok2: WIFI_SSID, WIFI_PWD, Server, MqttTopicPrefix) and every
+   sequence of TCP segments handled by the repaired supla_esp_recv_callback, the stored configuration satisfies wf_cfg
+   (C14_fields_terminated_in_place), hence every page rendered from it is independent of the stored secrets
+   (C15_noninterference). *)
+Theorem C15_after_saved_form : forall sg sgf d segs,
+  C14.Proofs.dev_ok d -> C14.Fields.dev_ok2 d ->
+  let c1 := stored_after sgf d segs in
+  wf_cfg c1 /\
+  forall v c2 nm mc stt dd add, low_equiv c1 c2 ->
+    observable sg v (mkenv c1 nm mc stt dd) add = observable sg v (mkenv c2 nm mc stt dd) add.
+Proof. exact C15_after_saved_form_thm. Qed.
+Print Assumptions C15_after_saved_form.
